@@ -4,6 +4,9 @@ CONSTANTS
   Alphabet = {120, 58, 35, 32, 9, 13, 10}
   MaxLen = 5
   LemmaLen = 4
+  GpgLen = 4
+  StrictDroppedInGpgClasses = FALSE
+  PosStrictMissedByPrepass = FALSE
   ZoneWhatIf = FALSE
   Emit = TRUE
   NoIndentRule = FALSE
